@@ -35,6 +35,9 @@ EXPLANATION += ' R3 also runs the local-memo rule over all package functions.'
 TECHNIQUE += "; ownership analysis of dump-side entry points for state carried on the caller's object"
 EXPLANATION += " Added: (R6) an argument that a dump modifies carries state into the next call on the same object (ownership clause C09-R1); R1 also covers stores on function / class / module objects and `global` rebinding; R4's set-order rule recognises set algebra on dictionary views (`a.keys() & b.keys()`) and effects made through package helpers that write a record."
 # --- end metadata batch 7
+# --- metadata added for batch 8
+EXPLANATION += ' R3 also reports a module-level name bound to a one-shot iterator (`zip`, `map`, a generator expression): the first call that iterates it uses it up. R5 knows `attrs.validators.disabled()`.'
+# --- end metadata batch 8
 TRUSTED = ["CPython ast parser", "module-level code runs once at import", "warnings.catch_warnings restores the filter state on exit"]
 
 AMBIENT = {
